@@ -6,7 +6,7 @@ CONSTANTS
   BadSigs = {"k"}
   MaxRaise = 2
   RaiseOn = {0, 1, 2}
-  SpuriousPolls = TRUE
+  SpuriousPolls = FALSE
   FixLeak = FALSE
   MaxNL = 3
   MaxSteps = 6
